@@ -128,6 +128,9 @@ func (w *c08World) opL1Deposit() {
 		data, kind = w.hookData(to, true, ref.L2Denom(tc.Bridge, d)), "succeeding-hook"
 	case 3:
 		amt, kind = math.ZeroInt(), "zero"
+		if w.rng.Bool() {
+			data, kind = w.hookData(to, false, ref.L2Denom(tc.Bridge, d)), "zero-with-failing-hook"
+		}
 	case 4:
 		data, kind = w.rng.Bytes(20), "garbage-hook"
 	case 5:
